@@ -412,7 +412,7 @@ struct BigInt {
             ++index;
         }
 
-        return (Platform::FindFirstBit(storage_[index_]) + (index * TypeWidth()));
+        return (Platform::FindFirstBit(storage_[index]) + (index * TypeWidth()));
     }
 
     inline SizeT32 FindLastBit() const noexcept {
